@@ -16,7 +16,7 @@ RULE = (
     "Hypothesis: a layout (all backends / sample dtypes / multi-file / header offsets as in C01) "
     "and a derivation tree: up to 7 (quick: 5) nodes, node k>0 = (parent index < k, op, arg) with "
     "op in {pos, neg, add, radd, sub, rsub, mul, rmul, truediv, rtruediv, floordiv, rfloordiv, "
-    "pow, rpow, cols} and scalars from {-3..3, 0.5, -2.5, 2.0, 1000, -1000} (one node in four repeats its parent's operator); chains reach depth 7 "
+    "pow, rpow, cols} and scalars from {-3..3, 0.5, -2.5, 2.0, +-1000, 30000, 200} (one node in three repeats its parent's operator, half of these also its operand); chains reach depth 7 "
     "(quick: 4). Then a generated read schedule: (node, row expression[, column selector]) "
     "triples in any order; the root is additionally read first and last. Oracle: the same Python "
     "operator expression applied to the fully loaded array, then NumPy indexing; shape and "
@@ -34,7 +34,7 @@ ASSUMPTIONS = ['NumPy operator semantics (NEP 50 promotion) define "eager"']
 BINOPS = ['add', 'radd', 'sub', 'rsub', 'mul', 'rmul', 'truediv', 'rtruediv', 'floordiv',
           'rfloordiv', 'pow', 'rpow']
 UNOPS = ['pos', 'neg']
-SCALARS = [-3, -2, -1, 0, 1, 2, 3, 0.5, -2.5, 2.0, 1000, -1000,
+SCALARS = [-3, -2, -1, 0, 1, 2, 3, 0.5, -2.5, 2.0, 1000, -1000, 30000, 200,
            # NumPy scalars keep their own dtype in NumPy 2 promotion
            {'np': 'float32', 'v': 0.5}, {'np': 'float64', 'v': 0.1}, {'np': 'int32', 'v': 3},
            {'np': 'int16', 'v': -2}, {'np': 'uint8', 'v': 2}]
@@ -64,8 +64,10 @@ def _case(draw, max_nodes, max_depth):
         if depth[parent] >= max_depth:
             parent = 0
         op = draw(st.sampled_from(BINOPS + UNOPS + ['cols', 'cols']))
-        if parent >= 1 and draw(st.integers(0, 3)) == 0:
+        same_arg = False
+        if parent >= 1 and draw(st.integers(0, 2)) == 0:
             op = nodes[parent - 1][1]        # repeat the parent's operator (x + a + b, x * a * b)
+            same_arg = draw(st.booleans())   # ... half of the time with the same operand
         if op == 'cols' and width[parent] == 0:
             op = draw(st.sampled_from(BINOPS + UNOPS))   # one channel was selected: 1-D from here
         if op == 'cols':
@@ -81,6 +83,8 @@ def _case(draw, max_nodes, max_depth):
             arg, w = None, width[parent]
         else:
             arg, w = draw(st.sampled_from(SCALARS)), width[parent]
+            if same_arg and nodes[parent - 1][1] == op and nodes[parent - 1][2] is not None:
+                arg = nodes[parent - 1][2]
             if op.startswith('r') and isinstance(arg, dict):
                 # a NumPy scalar on the LEFT reaches the reflected method as a plain Python scalar
                 # (NumPy's own dispatch), so its dtype cannot take part; use its value only
